@@ -108,9 +108,10 @@ func newModel() *model {
 func (m *model) live(svc string) map[string]bool {
 	out := map[string]bool{}
 	if svc == "D1" || svc == "D2" {
-		// bd and bd2 serve both services of the file, bh only D1
+		// bd and bd2 serve both services of the file, bh only D1; bd serves
+		// what its reflection listed when it was (last) registered
 		for _, b := range []string{"bd", "bd2"} {
-			if m.conns[b] {
+			if m.conns[b] && !(b == "bd" && svc == "D2" && m.bdRegList == "d1") {
 				out[b] = true
 			}
 		}
@@ -465,7 +466,9 @@ func (w *Worker) Run(h History, draws int) *Outcome {
 					}
 					break
 				}
-				if prov == "bd" && m.bdRev == 3 && op.K == "RegConn" {
+				if prov == "bd" && m.bdRev == 3 && m.bdList != "d1" && op.K == "RegConn" {
+					// (the invalid rule sits on D2: a back-end that lists D1
+					// alone does not offer it, its registration is valid)
 					// the revision on offer is invalid: refused whether the
 					// connection is new or a refresh, and nothing changes
 					if regErr == nil {
@@ -521,12 +524,6 @@ func (w *Worker) Run(h History, draws int) *Outcome {
 
 		// requests after the step
 		for _, md := range methods {
-			if md.full == "/vf.rs.D2/Get" && m.conns["bd"] && m.bdRegList == "d1" && !m.conns["bd2"] {
-				// bd did not advertise D2 when it was registered: whether the
-				// mux routes the unadvertised service of the same file is not
-				// claimed either way
-				continue
-			}
 			live := m.live(md.svc)
 			if md.svc == "T" && m.conns["bt"] && m.btDead {
 				// registered, never dropped, but down: the request belongs to
@@ -609,7 +606,7 @@ func (w *Worker) Run(h History, draws int) *Outcome {
 					// provider of the service registered, the binding only
 					// revision 2 declares must be gone again (the refresh
 					// replaces the connection's routes)
-					onlyGone := s.OnlyFrom == "bd-rev2" && m.conns["bd"] && m.bdReg == 1 && !m.conns["bd2"] && m.bdEver2 && !m.bd2Since2
+					onlyGone := s.OnlyFrom == "bd-rev2" && m.conns["bd"] && (m.bdReg == 1 || m.bdReg == 3) && !m.conns["bd2"] && m.bdEver2 && !m.bd2Since2
 					switch {
 					case onlyLive:
 						check("http", s.Binding, a)
